@@ -10,7 +10,7 @@ from hypothesis import strategies as st
 from vlib import env, core, gen, asserts, printer, gread, geom, plugin_harness  # noqa: F401
 
 ID = "C06"
-BUDGET = {"quick": 1500, "thorough": 12000}
+BUDGET = {"quick": 1200, "thorough": 12000}
 RULE = ("Hypothesis draws a mode assignment (exclude/first/last/merge/unconfigured) over 9 codes, enter/exit scripts of 0-3 "
         "canonical lines wrapped in blank lines, comments, leading/trailing blanks and LF/CRLF endings (split by the plugin), "
         "0-2 regions and a program of 8-45 ops that sprinkles instances of those codes (several parameter shapes) inside and "
